@@ -5,8 +5,25 @@ open Lean Fsm
 namespace Drv
 
 /-- stat as JSON: {"p":hex,"mode":n,"uid":n,"gid":n,"size":n,"mt":n,"ln":hex,"dmaj":n,"dmin":n,"x":[[hexk,hexv],..]} -/
+def parseXattrs (j : Json) : List (Path × Path) :=
+  match j.getObjVal? "x" with
+  | .ok (.arr a) => a.toList.filterMap fun kv =>
+      match kv with
+      | .arr #[.str k, .str v] => some (unhex k, unhex v)
+      | _ => none
+  | _ => []
+
+def xattrsJ (xs : List (Path × Path)) : Json :=
+  Json.arr (xs.map fun (k, v) => Json.arr #[jhex k, jhex v]).toArray
+
+def statJ (s : StatE) : Json :=
+  jobj ([("p", jhex s.path), ("mode", toJson s.mode), ("uid", toJson s.uid), ("gid", toJson s.gid),
+        ("size", toJson s.size), ("mt", toJson s.mtime), ("ln", jhex s.linkname),
+        ("dmaj", toJson s.devmajor), ("dmin", toJson s.devminor)] ++
+        (if s.xattrs.isEmpty then [] else [("x", xattrsJ s.xattrs)]))
+
 def parseStat (j : Json) : Except String StatE := do
-  return { path := getHexD j "p", mode := getNatD j "mode" 0, uid := getNatD j "uid" 0, gid := getNatD j "gid" 0,
+  return { xattrs := parseXattrs j, path := getHexD j "p", mode := getNatD j "mode" 0, uid := getNatD j "uid" 0, gid := getNatD j "gid" 0,
            size := (getInt j "size").toOption.getD 0, mtime := (getInt j "mt").toOption.getD 0,
            linkname := getHexD j "ln", devmajor := (getInt j "dmaj").toOption.getD 0,
            devminor := (getInt j "dmin").toOption.getD 0 }
